@@ -63,3 +63,55 @@ Proof.
   split; [vm_compute; reflexivity|]. split; [exact pre_not_full|]. split; [exact ld_ok|].
   split; [vm_compute; reflexivity|exact post_broken].
 Qed.
+
+(* ---------- rule (c) is not kept by a merge (why the load theorems speak of FilesInvW) ---------- *)
+Lemma pre_c_inv : TreeInv wc_pre /\ FilesInv tiny wc_pre /\ FilesOwned wc_pre.
+Proof. apply (reachable_owned_all tiny tiny_el tiny_en tiny_check_fn LATEST [] pre_c wc_pre); vm_compute; reflexivity. Qed.
+
+Lemma pre_c_full : RootFull wc_pre (model0 wc_pre).
+Proof.
+  assert (exists rn, w_nodes wc_pre (m_root (model0 wc_pre)) = Some rn /\ n_files rn = [0]) as (rn & Hrn & Hf)
+    by (eexists; split; [vm_compute; reflexivity|reflexivity]).
+  exists rn. split; auto. rewrite Hf. assert (m_files (model0 wc_pre) = [0]) as -> by (vm_compute; reflexivity). apply incl_refl.
+Qed.
+
+Lemma ld_c_ok : ld_c wc_pre = Val (OK 1, wc_post).
+Proof.
+  assert (match ld_c wc_pre with Val (r0, _) => Some r0 | _ => None end = Some (OK 1)) as Hres by (vm_compute; reflexivity).
+  unfold wc_post. destruct (ld_c wc_pre) as [[r w']| |]; try discriminate Hres. injection Hres as ->. reflexivity.
+Qed.
+
+Lemma post_c_nodes :
+  option_map (fun n => (n_files n, n_parent n, kids n)) (w_nodes wc_post 0) = Some ([0; 1], PModel 0, [1]) /\
+  option_map (fun n => (n_parent n, kids n)) (w_nodes wc_post 1) = Some (PElem 0, [2]) /\
+  option_map (fun n => (n_parent n, kids n, splittable tiny (n_type n))) (w_nodes wc_post 2) = Some (PElem 1, [3; 4], Val 0) /\
+  option_map (fun n => (n_files n, n_parent n)) (w_nodes wc_post 4) = Some ([0], PElem 2) /\
+  m_root (model0 wc_post) = 0.
+Proof. vm_compute. repeat split; reflexivity. Qed.
+
+Lemma post_c_broken : ~ FilesInvM tiny wc_post (model0 wc_post).
+Proof.
+  destruct post_c_nodes as (E0 & E1 & E2 & E4 & Er). intros [A B S D]. rewrite Er in *.
+  destruct (w_nodes wc_post 0) as [n0|] eqn:H0; [|discriminate E0]. cbn in E0. injection E0 as F0 P0 K0.
+  destruct (w_nodes wc_post 1) as [n1|] eqn:H1; [|discriminate E1]. cbn in E1. injection E1 as P1 K1.
+  destruct (w_nodes wc_post 2) as [n2|] eqn:H2; [|discriminate E2]. cbn in E2. injection E2 as P2 K2 S2.
+  destruct (w_nodes wc_post 4) as [n4|] eqn:H4; [|discriminate E4]. cbn in E4. injection E4 as F4 P4.
+  assert (Reach wc_post 0 4) as Hr.
+  { eapply R_kid; [eapply R_kid; [eapply R_kid; [constructor; exists n0; exact H0|]|]|].
+    - exists n0. split; auto. rewrite K0. left. reflexivity.
+    - exists n1. split; auto. rewrite K1. left. reflexivity.
+    - exists n2. split; auto. rewrite K2. right. left. reflexivity. }
+  assert (n_files n4 <> []) as Hne by (rewrite F4; intros Hx; discriminate Hx).
+  destruct (S 4 n4 2 n2 Hr H4 Hne P4 H2) as (sv & Hsv & Hnz). rewrite S2 in Hsv. injection Hsv as <-. apply Hnz. reflexivity.
+Qed.
+
+Theorem rule_c_witness :
+  exists (w : world) (x : model) (w' : world) (x' : model) (fid : N),
+    TreeInv w /\ FilesInv tiny w /\ FilesOwned w /\ nth_opt (w_models w) 0 = Some x /\ RootFull w x /\
+    ld_c w = Val (OK fid, w') /\ nth_opt (w_models w') 0 = Some x' /\ ~ FilesInvM tiny w' x'.
+Proof.
+  exists wc_pre, (model0 wc_pre), wc_post, (model0 wc_post), 1.
+  destruct pre_c_inv as (TI & FI & FO). split; [exact TI|]. split; [exact FI|]. split; [exact FO|].
+  split; [vm_compute; reflexivity|]. split; [exact pre_c_full|]. split; [exact ld_c_ok|].
+  split; [vm_compute; reflexivity|exact post_c_broken].
+Qed.
